@@ -3756,3 +3756,118 @@ func E5SignedRounding(c *core.Ctx, r *core.Report) {
 	r.Count("E5.signed-rounding-sites", n)
 	r.Floor("E5.signed-rounding-sites", 3)
 }
+
+// E5CMapBlockLimit: a block of the ToUnicode CMap has at most 100 entries.
+func E5CMapBlockLimit(c *core.Ctx, r *core.Report) {
+	r.Rule("E5.cmap-block-limit", "a beginbfchar or beginbfrange block of a CMap holds at most 100 entries (Adobe Technical Note 5014, §1.4.1; conforming readers reject longer blocks and the text cannot be extracted). Every write whose format contains `beginbfchar` or `beginbfrange` takes its count from `len(b)` of a local b that is a slice `s[i:min(i+K, len(s))]` (or `s[i:i+K]` under a length test) with a constant K of at most 100, inside a loop that advances i by the same K")
+	p := c.MustPkg(pdfRel)
+	info := p.TypesInfo
+	n := 0
+	for _, fd := range core.AllFuncDecls(p) {
+		if fd.Body == nil {
+			continue
+		}
+		var stack []ast.Node
+		ast.Inspect(fd.Body, func(m ast.Node) bool {
+			if m == nil {
+				stack = stack[:len(stack)-1]
+				return true
+			}
+			stack = append(stack, m)
+			call, ok := m.(*ast.CallExpr)
+			if !ok {
+				return true
+			}
+			fi := -1
+			op := ""
+			for i, a := range call.Args {
+				if s, ok := constString(info, a); ok {
+					for _, o := range []string{"beginbfchar", "beginbfrange"} {
+						if strings.Contains(s, o) {
+							fi, op = i, o
+						}
+					}
+				}
+			}
+			if fi < 0 || fi+1 >= len(call.Args) {
+				return true
+			}
+			n++
+			key := fmt.Sprintf("pdf.%s|%s block size", core.FuncName(fd), op)
+			fail := func(why string) {
+				r.Fail("E5.cmap-block-limit", key, c.Pos(call.Pos()), why+": a font with more than 100 mapped codes gets a block longer than the CMap format allows")
+			}
+			// count = len(b)
+			cnt, ok := core.Unparen(call.Args[fi+1]).(*ast.CallExpr)
+			if !ok || len(cnt.Args) != 1 {
+				fail("the count `" + c.Src(call.Args[fi+1]) + "` is not the length of a block")
+				return true
+			}
+			if id, ok := cnt.Fun.(*ast.Ident); !ok || id.Name != "len" {
+				fail("the count `" + c.Src(call.Args[fi+1]) + "` is not the length of a block")
+				return true
+			}
+			bid, ok := core.Unparen(cnt.Args[0]).(*ast.Ident)
+			if !ok {
+				fail("the count is not the length of a local block")
+				return true
+			}
+			bobj := core.ObjOf(info, bid)
+			// enclosing loop with `i += K`
+			var loop *ast.ForStmt
+			for i := len(stack) - 1; i >= 0 && loop == nil; i-- {
+				if fs, ok := stack[i].(*ast.ForStmt); ok {
+					loop = fs
+				}
+			}
+			if loop == nil {
+				fail("the block is not written inside a loop over pieces of the entries")
+				return true
+			}
+			post, ok := loop.Post.(*ast.AssignStmt)
+			if !ok || post.Tok != token.ADD_ASSIGN || len(post.Rhs) != 1 {
+				fail("the loop does not advance by a constant block size")
+				return true
+			}
+			step, ok := core.ConstInt(info, post.Rhs[0])
+			if !ok || step < 1 || step > 100 {
+				fail(fmt.Sprintf("the loop advances by `%s`, not by a constant of at most 100", c.Src(post.Rhs[0])))
+				return true
+			}
+			// b := s[i:min(i+K, len(s))]
+			bounded := false
+			ast.Inspect(loop.Body, func(q ast.Node) bool {
+				as, ok := q.(*ast.AssignStmt)
+				if !ok || len(as.Lhs) != 1 || len(as.Rhs) != 1 {
+					return true
+				}
+				if id, ok := as.Lhs[0].(*ast.Ident); !ok || core.ObjOf(info, id) != bobj {
+					return true
+				}
+				se, ok := core.Unparen(as.Rhs[0]).(*ast.SliceExpr)
+				if !ok || se.High == nil {
+					return true
+				}
+				ast.Inspect(se.High, func(k ast.Node) bool {
+					if be, ok := k.(*ast.BinaryExpr); ok && be.Op == token.ADD {
+						for _, side := range []ast.Expr{be.X, be.Y} {
+							if v, ok := core.ConstInt(info, side); ok && v == step {
+								bounded = true
+							}
+						}
+					}
+					return true
+				})
+				return true
+			})
+			if bounded {
+				r.OK("E5.cmap-block-limit", key, c.Pos(call.Pos()), fmt.Sprintf("blocks of %d", step))
+			} else {
+				fail("the block is not a slice of at most the loop's step")
+			}
+			return true
+		})
+	}
+	r.Count("E5.cmap-blocks", n)
+	r.Floor("E5.cmap-blocks", 2)
+}
